@@ -1097,6 +1097,20 @@ func runC06(r *hx.Result, cfg hx.Config) {
 	par := 6
 	sem := make(chan struct{}, par)
 	var wg sync.WaitGroup
+	wg.Add(1)
+	go func() {
+		defer wg.Done()
+		x.runExpiryScenario(filepath.Join(cfg.Work, "expiry"))
+	}()
+	wg.Add(2)
+	go func() {
+		defer wg.Done()
+		x.runShrinkMidCopy(filepath.Join(cfg.Work, "shrinkcopy"))
+	}()
+	go func() {
+		defer wg.Done()
+		x.runRepoint(filepath.Join(cfg.Work, "repoint"))
+	}()
 	for i, sc := range scs {
 		wg.Add(1)
 		sem <- struct{}{}
@@ -1106,10 +1120,5 @@ func runC06(r *hx.Result, cfg hx.Config) {
 			x.runScenario(sc, filepath.Join(cfg.Work, fmt.Sprintf("s%03d", i)))
 		}(i, sc)
 	}
-	wg.Add(1)
-	go func() {
-		defer wg.Done()
-		x.runExpiryScenario(filepath.Join(cfg.Work, "expiry"))
-	}()
 	wg.Wait()
 }
